@@ -417,7 +417,10 @@ def oracle(case, impl):
         got = [(n, c) for n, c in decode_recs(impl) if c]
         if want == "ERR":
             return "a record with bases and no name is silently dropped"
-        wantc = [(n, bytes(CODE.get(x, 30) for x in q)) for n, q in want]
+        if any(x > 15 and x != 30 for _, c in got for x in c):
+            return "a symbol code outside 0..15 / 30 on a text of the property's alphabet"
+        got = [(n, bytes(IUPAC[x] if x < 16 else 78 for x in c)) for n, c in got]   # what extraction prints
+        wantc = want
         if got != wantc:
             miss = [n for n, _ in wantc if n not in [g for g, _ in got]]
             return ("record(s) with >= 1 base left out: %r" % miss) if miss else "records differ from the normalised input"
